@@ -71,6 +71,36 @@ def run(ctx):
     who(ctx)
     init(ctx)
     prot(ctx)
+    resize_keeps_mask(ctx)
+
+
+def resize_keeps_mask(ctx):
+    """C09.prot (resize): resizing an area leaves its permission mask as it was -- the final-value analysis of
+    mem_resize_section shared with C10.resize (in place, or removed and re-created)"""
+    from . import C10
+    ck = ctx.check
+
+    class _Fwd:
+        def __init__(self, ck_):
+            self.ck, self.cov, self.samples, self.assumptions, self.violations = ck_, {}, [], ck_.assumptions, ck_.violations
+            self.hit = False
+
+        def ok(self, rule, instance=None, n=1): pass
+
+        def violation(self, rule, instance, observed, **kw):
+            if rule == "C10.resize" and "permission mask" in observed:
+                self.hit = True
+                self.ck.violation("C09.prot", "api=mem_resize_section", observed, **kw)
+
+        def undecided_(self, *a, **k): pass
+        def floor(self, *a, **k): pass
+        def sample(self, *a, **k): pass
+    sub = type("Sub", (), {})()
+    sub.__dict__.update(ctx.__dict__)
+    sub.check = _Fwd(ck)
+    C10.resize_copy(sub)
+    if not sub.check.hit:
+        ck.ok("C09.prot", "api=mem_resize_section")
 
 
 def gates(ctx):
